@@ -1,7 +1,9 @@
 #!/bin/bash
 # runs every quick (or $1) check once, prints one line each, validates evidence
 tier=${1:-quick}
-cd ${VERIF_ROOT:-/verif}
+# always the tree this script lives in (a background snapshot must not fall back to the live /verif)
+export VERIF_ROOT=${VERIF_ROOT:-$(dirname "$(readlink -f "$0")")}
+cd "$VERIF_ROOT"
 for p in $(python3 -c "import json;print(' '.join(c['property_id'] for c in json.load(open('MANIFEST.json'))['checks']))"); do
   s=$(date +%s); out=$(./run $p $tier 2>&1); rc=$?; e=$(( $(date +%s) - s ))
   kf=$(echo "$out" | grep -c '^KNOWN-FINDING')
